@@ -302,7 +302,7 @@ CHECK_DEADLOCK FALSE
     return mod, cfg
 
 
-def model_cfg(spec, props, env, faults, initdisc):
+def model_cfg(spec, props, env, faults, initdisc, live=False):
     k = CY.MODEL_CONSTANTS
     return '''CONSTANTS
   MinWait = %d
@@ -321,13 +321,13 @@ def model_cfg(spec, props, env, faults, initdisc):
   MaxClock = 1
   FaultBudget = %d
   EnvBudget = %d
-  InitDisc <- %s
+  InitDisc <- %s%s
 SPECIFICATION %s
 INVARIANT TypeK
 PROPERTIES %s
 CHECK_DEADLOCK FALSE
 ''' % (k['MinWait'], k['HeadReliefChecksProc'], k['TooBigUsesTotal'], k['EarlyByShardCount'], k['TailNeedsEmpty'], k['TooBigFirst'],
-       k['TieBreakByOrder'], k['RevertOrphanTransfer'], faults, env, initdisc, spec, props)
+       k['TieBreakByOrder'], k['RevertOrphanTransfer'], faults, env, initdisc, '\n  Placements <- PlaceLive' if live else '', spec, props)
 
 
 def model_runs(prop, tier):
@@ -339,7 +339,7 @@ def model_runs(prop, tier):
     if tier == 'quick':
         runs.append(('liveness', model_cfg('KFair', 'EventuallyConverged', 0, 0, 'All')))
     else:
-        runs.append(('liveness', model_cfg('KFair', 'EventuallyConverged', 0 if f else 1, f, 'All')))
+        runs.append(('liveness', model_cfg('KFair', 'EventuallyConverged', 0 if f else 1, f, 'All', live=True)))
     return runs
 
 
